@@ -84,7 +84,7 @@ var (
 	ProbeHit [4]uint64
 )
 
-// DefaultHeapLimit (bytes of heap in use, sampled every 65536 steps) is armed
+// DefaultHeapLimit (bytes of heap in use, sampled every 4096 steps) is armed
 // by Reset for every run, so that a runaway allocation ends as an abort of the
 // op instead of the kernel killing a worker at a load-dependent moment.
 var DefaultHeapLimit uint64
@@ -346,7 +346,7 @@ func step(site uint32) {
 		childAbort = ""
 		panic(Abort{k})
 	}
-	if heapLimit != 0 && Steps&0xffff == 0 {
+	if heapLimit != 0 && Steps&0xfff == 0 {
 		var ms runtime.MemStats
 		runtime.ReadMemStats(&ms)
 		if ms.HeapAlloc > heapLimit {
@@ -414,7 +414,7 @@ func OpEnd() {
 }
 
 // SetHeapLimit arms the heap budget (bytes of live heap), checked every
-// 65536 steps.
+// 4096 steps.
 //
 //go:norace
 func SetHeapLimit(b uint64) { heapLimit = b; heapKind = "heap" }
